@@ -1,6 +1,7 @@
 package exec
 
 import (
+	"net/url"
 	"fmt"
 	"math/rand"
 	"regexp"
@@ -117,6 +118,12 @@ func (e *Exec) SelfTest(corpus []string, patterns []string, seed int64) (checks 
 				}
 			}
 			checks += 2
+			if isASCII(s) {
+				checks++
+				if got, want := e.StrConcrete(e.escapePath(ss), ev), (&url.URL{Path: s}).EscapedPath(); got != want {
+					bad("EscapedPath(%q)=%q want %q", s, got, want)
+				}
+			}
 			if got, want := e.StrConcrete(e.mapBytes(ss, true), ev), strings.ToLower(s); got != want && isASCII(s) {
 				bad("ToLower(%q)=%q", s, got)
 			}
